@@ -244,6 +244,16 @@ def zi_routes(name, s_ns, e_ns, wall, sav):
         pass
 
 
+def iv_routes(has_s, s_ns, has_e, e_ns):
+    """an Interval (either side possibly unbounded) by the constructor; copies are added by _check_group"""
+    P = _P()
+
+    def I(ns):
+        return P.Instant._ctor(days=ns // NPD, nano_of_day=ns % NPD)
+    yield "ctor", P.Interval(I(s_ns) if has_s else None, I(e_ns) if has_e else None)
+    yield "ctor again", P.Interval(I(s_ns) if has_s else None, I(e_ns) if has_e else None)
+
+
 def _derived_values(kind, v):
     """values built from a date: they must be equal whenever the dates are"""
     P = _P()
@@ -254,11 +264,46 @@ def _derived_values(kind, v):
     return out
 
 
+def _fingerprint(v):
+    """all public data attributes of a value that are plain data (int, str, bool, None), or the exception type they
+    raise: two equal values must agree on every one of them (has_end of a copied Interval, fields of a derived date...)"""
+    out = {}
+    for a in dir(type(v)):
+        if a.startswith("_"):
+            continue
+        try:
+            static = getattr(type(v), a)
+        except Exception:  # noqa: BLE001
+            continue
+        if not isinstance(static, property):
+            continue
+        try:
+            x = getattr(v, a)
+        except Exception as e:  # noqa: BLE001
+            out[a] = "raises " + type(e).__name__
+            continue
+        if isinstance(x, (int, str, bool)) or x is None:
+            out[a] = x
+    return out
+
+
+def _copies(name, v):
+    import copy
+    import pickle
+    for cn, f in (("copy.copy", copy.copy), ("copy.deepcopy", copy.deepcopy), ("pickle", lambda x: pickle.loads(pickle.dumps(x)))):
+        try:
+            yield f"{cn} of {name}", f(v)
+        except TypeError:
+            pass                     # the type does not support it (ZonedDateTime, Period, ZoneInterval: not picklable)
+
+
 def _check_group(kind, key, routes):
     P = _P()
     vals = []
     for name, v in routes:
         vals.append((name, v))
+    if vals:
+        vals.extend(list(_copies(*vals[0])) + (list(_copies(*vals[-1])) if len(vals) > 1 else []))
     if not vals:
         return None
     n0, v0 = vals[0]
@@ -273,12 +318,17 @@ def _check_group(kind, key, routes):
             pass
         if hasattr(v, "compare_to") and v.compare_to(v0) != 0:
             return {"key": f"{kind}-route-dependent-order", "what": f"{kind} {key}: compare_to between routes '{name}' and '{n0}' is {v.compare_to(v0)}"}
-        if kind != "zoneinterval" and ((v < v0) or (v > v0) or not (v <= v0) or not (v >= v0)):
+        if kind not in ("zoneinterval", "interval") and ((v < v0) or (v > v0) or not (v <= v0) or not (v >= v0)):
             return {"key": f"{kind}-route-dependent-order", "what": f"{kind} {key}: ordering operators separate routes '{name}' and '{n0}'"}
         for (dn, dv), (_, d0) in zip(_derived_values(kind, v), _derived_values(kind, v0)):
             if not (dv == d0) or hash(dv) != hash(d0):
                 return {"key": f"{kind}-route-dependent-equality",
                         "what": f"{kind} {key}: the {dn} built from route '{name}' is not == / does not hash like the one built from route '{n0}'"}
+        fa, fb = _fingerprint(v), _fingerprint(v0)
+        if fa != fb:
+            k = next(a for a in fa if fa.get(a) != fb.get(a))
+            return {"key": f"{kind}-route-dependent-attribute",
+                    "what": f"{kind} {key}: attribute {k} is {fa.get(k)!r} on the value of route '{name}' and {fb.get(k)!r} on the == value of route '{n0}'"}
         if len({v, v0}) != 1:
             return {"key": f"{kind}-route-dependent-hash", "what": f"{kind} {key}: a set keeps the values of routes '{name}' and '{n0}' apart"}
         if kind in ("instant", "duration"):
@@ -294,6 +344,8 @@ def case_fn(case):
         return _check_group(kind, f"{case[1]} ns", instant_routes(case[1]))
     if kind == "duration":
         return _check_group(kind, f"{case[1]} ns", duration_routes(case[1]))
+    if kind == "iv":
+        return _check_group("interval", f"{case[1:]}", iv_routes(*case[1:]))
     if kind == "zi":
         return _check_group("zoneinterval", f"{case[1]} [{case[2]},{case[3]}) {case[4]} {case[5]}", zi_routes(*case[1:]))
     if kind == "ld":
@@ -317,7 +369,10 @@ def gen_cases(rng, n):
             nod = rng.randrange(86400) * NPS
         else:
             nod = rng.randrange(NPD)
-        if r < 0.06:
+        if r < 0.03:
+            a = rng.randint(-10**18, 10**18)
+            out.append(("iv", rng.random() < 0.6, a, rng.random() < 0.6, a + rng.randint(0, 10**17)))
+        elif r < 0.06:
             a = rng.randint(-10**18, 10**18)
             out.append(("zi", rng.choice(["A", "BST", "x y"]), a, a + rng.choice([1, 2, NPD, 180 * NPD, rng.randint(3, 10**17)]),
                         rng.choice([0, 3600, -18000, 64800]), rng.choice([0, 3600, 1800])))
